@@ -49,6 +49,9 @@ impl HeapSut {
     }
 }
 impl Sut for HeapSut {
+    fn config(&self) -> Value {
+        json!([self.h.k()])
+    }
     const TAG: &'static str = "heap";
     fn new(cfg: &Value) -> Self {
         let k = cfg["kk"].as_u64().unwrap() as usize;
